@@ -98,7 +98,18 @@ fn produce_random(t: &mut Tape, world_no: u64) -> Produced {
             inputs: vec![],
             closed,
         };
-        g.tx(depth)
+        let mut tx = g.tx(depth);
+        // a deep but legal value: list literals nested well beyond anything the front end emits, yet
+        // within the decoder's own nesting limit
+        if g.t.draw(12) == 11 {
+            let d = *g.t.pick(&[35usize, 60, 90]);
+            let mut e = tir::Expression::Number(7);
+            for _ in 0..d {
+                e = tir::Expression::List(vec![e]);
+            }
+            tx.metadata.push(tir::Metadata { key: tir::Expression::Number(1), value: e });
+        }
+        tx
     };
     let mut args = ArgMap::new();
     for (k, ty) in params_of(&tx) {
